@@ -54,7 +54,7 @@ def check_graph(A: cpdrv.Analysed, res: core.CaseResult, truth: Dict[str, Any]) 
         k = (int(n.ev_idx), bool(n.is_start))
         if k in got:
             res.bad("one-start-one-end-node", f"{tag}: event {k[0]} has two {'start' if k[1] else 'end'} nodes")
-        got[k] = int(n.ts)
+        got[k] = core.num(n.ts)
     if not set(g.nodes) <= set(range(len(nl))):        # isolated nodes never enter the networkx graph; ids must be list positions
         res.bad("graph-nodes", f"{tag}: networkx node ids {sorted(set(g.nodes) - set(range(len(nl))))[:5]} are not node_list positions")
     missing = sorted(set(exp.nodes) - set(got))[:6]
